@@ -91,6 +91,8 @@ G02_helperErrOnDefect(s, st, e) ==
   (Incomplete(s) /\ ~st.errSeen) => e.res # "ok"
 G02_helperPrefix(s, st, e) ==
   (e.res = "ok" /\ st.op \in BytesOps) => (e.lcp = e.n /\ st.delivered + e.n <= s.payloadLen)
+\* also a helper that ended in an error has only handed out a prefix of the payload
+G02_handedOutIsPrefix(s, st, e) == e.res = "err" => e.lcp = e.n
 G05_helperReturns(s, st, e) == e.res # "panic"
 
 \* ---- the client asks the transport for octets that have not arrived -------
@@ -111,7 +113,7 @@ G19_noWaitBeyondFrame(s, st) ==
 
 SendGuards   == {"G04_sendOkOnValidHead", "G03_badLengthRejected", "G02_cutHeadIsError", "G05_sendReturns"}
 ReadGuards   == {"G01_prefix", "G01_eofOnlyWhenComplete", "G01_noSpuriousError", "G03_emptyBody", "G05_readReturns"}
-HelperGuards == {"G01_helperWhole", "G02_helperErrOnDefect", "G02_helperPrefix", "G05_helperReturns"}
+HelperGuards == {"G01_helperWhole", "G02_helperErrOnDefect", "G02_helperPrefix", "G02_handedOutIsPrefix", "G05_helperReturns"}
 WantGuards   == {"G19_sendNotBlockedAfterHead", "G19_readNotBlockedWhenDeliverable", "G19_noWaitBeyondFrame"}
 
 RetGuard(g, s, st, e) ==
@@ -128,6 +130,7 @@ RetGuard(g, s, st, e) ==
     [] g = "G02_helperErrOnDefect"   -> G02_helperErrOnDefect(s, st, e)
     [] g = "G02_helperPrefix"        -> G02_helperPrefix(s, st, e)
     [] g = "G05_helperReturns"       -> G05_helperReturns(s, st, e)
+    [] g = "G02_handedOutIsPrefix"   -> G02_handedOutIsPrefix(s, st, e)
 
 WantGuard(g, s, st) ==
   CASE g = "G19_sendNotBlockedAfterHead"       -> G19_sendNotBlockedAfterHead(s, st)
@@ -141,7 +144,7 @@ GuardsOfOp(op) == IF op = "send" THEN SendGuards ELSE IF op = "read" THEN ReadGu
 GuardProp(g) ==
   CASE g \in {"G04_sendOkOnValidHead"} -> "C04"
     [] g \in {"G03_badLengthRejected", "G03_emptyBody"} -> "C03"
-    [] g \in {"G02_cutHeadIsError", "G02_helperErrOnDefect", "G02_helperPrefix"} -> "C02"
+    [] g \in {"G02_cutHeadIsError", "G02_helperErrOnDefect", "G02_helperPrefix", "G02_handedOutIsPrefix"} -> "C02"
     [] g \in {"G05_sendReturns", "G05_readReturns", "G05_helperReturns"} -> "C05"
     [] g \in {"G01_prefix", "G01_eofOnlyWhenComplete", "G01_noSpuriousError", "G01_helperWhole"} -> "C01"
     [] g \in {"G19_sendNotBlockedAfterHead", "G19_readNotBlockedWhenDeliverable", "G19_noWaitBeyondFrame"} -> "C19"
